@@ -115,9 +115,11 @@ def withSlash (s : String) : String := if s.toList.getLast? = some '/' then s el
 def isUrlAllowed (b : Backend) (scheme : String) : Bool :=
   scheme = "https" || (scheme = "http" && b.allowHttp)
 
-/-- one entry of the loop in `getBackendLocked` -/
+/-- one entry of the loop in `getBackendLocked`: an entry without url (only hosts configured) matches;
+otherwise the entry's url — with a "/" appended if it is stored without one, as backends received
+from etcd are — must be a prefix of the looked-up url (`str`: already "/"-terminated) -/
 def entryMatches (scheme str : String) (b : Backend) : Bool :=
-  isUrlAllowed b scheme && (b.url = "" || hasPrefix b.url str)
+  isUrlAllowed b scheme && (b.url = "" || hasPrefix (withSlash b.url) str)
 
 /-- `BackendConfiguration.GetBackend` → `backendStorageStatic.GetBackend` → `getBackendLocked`;
 `rejectDots`: whether `GetBackend` refuses URLs with dot segments (generated fact, see `getBackend`). -/
